@@ -42,7 +42,7 @@ type vfNackScript struct {
 	} `json:"steps"`
 }
 
-var errVfNackInjected = errors.New("injected RTCP write failure") //nolint:gochecknoglobals
+var errVfNackInjected error = vfInjErr{"injected RTCP write failure"} //nolint:gochecknoglobals
 
 func vfSorted(in []uint16) []uint16 {
 	out := append([]uint16{}, in...)
